@@ -122,3 +122,4 @@ Example C01_nonvacuous :
   /\ sp_parse_empty_gen cfg_merge forest_NV_merge = Ok (spec_C01 forest_NV_merge)
   /\ parse_merge_gen (option_strings (p_cfg cfg_merge)) forest_NV_merge = Ok (spec_C01 forest_NV_merge).
 Proof. exact nonvacuous. Qed.
+Print Assumptions C01_nonvacuous.
